@@ -235,7 +235,7 @@ def compare(res, m, desc, replay, first):
 def run_shard(tier, seed, idx, n, res, tmp):
     from stone.backends.python_rsrc import stone_validators as bv
     b = budget(tier)
-    for ci in range(idx, b['specs'], n):
+    for ci in common.case_range(idx, b['specs'], n, res):
         cs = common.case_seed(PROPERTY, seed, ci)
         rnd = random.Random(cs)
         m = gm.generate(cs, profile())
